@@ -222,7 +222,7 @@ func (s *FixedSliceReader) ReadBytes(n int) []byte {
 		s.err = ErrSliceRead
 		return []byte{}
 	}
-	res := s.slice[s.pos : s.pos+n]
+	res := s.slice[s.pos : s.pos+n : s.pos+n] // capacity limited, so that an append by the caller never writes into the bytes that follow
 	s.pos += n
 	return res
 }
